@@ -479,6 +479,10 @@ func (r *Runner) tryCommit(lb *liveBlock) bool {
 		lb.bc.SetBlockHash(lb.decl.Hash)
 		lb.renamed = true
 		r.logf("%s SetBlockHash", lb.decl.Hash)
+		// what the block cache answers must not depend on the name it carries: ask right away
+		for _, key := range r.Tree.Keys {
+			r.lookupBlock(lb, key)
+		}
 		if gen.Chance(r.RT, 50, "hashthenlater") {
 			// the block has its final hash now and is committed at a later step; lookups through it go on meanwhile
 			return false
